@@ -52,6 +52,9 @@ ALLOWED_SUBST = {
                        "`for x in &self.f` -> `for x in self.f.iter()` (same desugaring)"),
     "iter_ref_local": (r"\bfor\s+(\w+)\s+in\s+&(\w+)\b", r"for \1 in \2.iter()",
                        "`for x in &v` -> `for x in v.iter()` (same desugaring)"),
+    "vec_range_index_mut": (r"(\bself\.\w+)\[([^\]\n]*\.\.[^\]\n]*)\]", r"\1.as_mut_slice()[\2]",
+                            "`vec[a..b]` in a mutable place -> `vec.as_mut_slice()[a..b]` (std: Vec's IndexMut<Range> is "
+                            "`&mut (**self)[range]`, deref_mut == as_mut_slice; vstd specifies the slice form only)"),
     "fn_ptr_call": (r"\(self\.(\w+)\)\(", r"fnptr_call_\1(&self.\1, ",
                     "call through fn-pointer field -> mirrored call with abstract contract"),
     "plus_eq_deref": (r"\*([^;\n]*?)\?\s*\+=\s*1;", r"incr_u32(\1?);",
@@ -231,7 +234,7 @@ def _name_return(sig, sig_masked, ret, rw):
     return f"{sig[:arrow]}-> ({ret}: {ty})" + ("\n    " + tail.strip() if tail.strip() else "")
 
 
-def extract_fn(relpath, impl_header, name, opts, spec_text, loops, hints, substs, rw):
+def extract_fn(relpath, impl_header, name, opts, spec_text, loops, hints, substs, rw, closures=()):
     src, masked = _read(relpath)
     if impl_header in ("-", ""):
         a, ob, cb = rustlex.find_fn(src, masked, name, 0, None, 0)
@@ -268,7 +271,17 @@ def extract_fn(relpath, impl_header, name, opts, spec_text, loops, hints, substs
         else:
             inserts.append((lb, "\n" + text.rstrip()))
         rw.add("ghost-inserted", "contract / loop invariant / ghost hint text spliced in (no executable tokens)")
-    for off, text in sorted(inserts, key=lambda t: -t[0]):
+    found_cl = find_closures(body_masked)
+    for ordinal, ret, ty, spec in closures:
+        if ordinal >= len(found_cl):
+            raise AnchorError(f"{name}: closure #{ordinal} not found ({len(found_cl)} closures)")
+        bar_end, expr_end = found_cl[ordinal]
+        one = " ".join(x.strip() for x in spec.strip().split("\n"))
+        inserts.append((bar_end, f" -> ({ret}: {ty}) {one} {{"))
+        inserts.append((expr_end, " }"))
+        rw.add("closure-annotated", "`|x| e` written `|x| -> (r: T) ensures .. { e }` (Verus does not infer closure "
+               "postconditions; the expression e is unchanged)")
+    for off, text in sorted(inserts, key=lambda t: (-t[0], 0 if t[1] == " }" else 1)):
         body = body[:off] + text + body[off:]
 
     if "ret" in opts:
@@ -291,6 +304,28 @@ def extract_fn(relpath, impl_header, name, opts, spec_text, loops, hints, substs
         rw.add("subst:" + key, note, n)
     # inline comments in the body are kept; doc comments cannot occur inside fn text
     return text
+
+
+def find_closures(masked_body):
+    """(end of `|args|`, end of closure expression) for closures passed as the last call argument:
+    `(|args| expr)`; in textual order."""
+    out = []
+    for m in re.finditer(r"\(\s*(?:move\s+)?\|[^|]*\|", masked_body):
+        bar_end = m.end()
+        depth, k = 0, bar_end
+        while k < len(masked_body):
+            ch = masked_body[k]
+            if ch in "([{":
+                depth += 1
+            elif ch in ")]}":
+                if depth == 0:
+                    break
+                depth -= 1
+            elif ch == "," and depth == 0:
+                break
+            k += 1
+        out.append((bar_end, k))
+    return out
 
 
 class Expanded:
@@ -345,7 +380,7 @@ def expand(template_path):
                     opts[k.strip()] = v.strip()
                 else:
                     opts[o] = True
-            spec, loops, hints, substs = [], [], [], []
+            spec, loops, hints, substs, closures = [], [], [], [], []
             cur = spec
             i += 1
             while i < len(tl) and tl[i].strip() != "//@endfn":
@@ -363,6 +398,13 @@ def expand(template_path):
                     cur = buf
                 elif t.startswith("//@subst "):
                     substs.append(t[len("//@subst "):].strip())
+                elif t.startswith("//@closure "):
+                    m = re.match(r"//@closure (\d+) :: ret=(\w+): (.*)$", t)
+                    if not m:
+                        raise AnchorError(f"bad closure directive: {t}")
+                    buf = []
+                    closures.append([int(m.group(1)), m.group(2), m.group(3).strip(), buf])
+                    cur = buf
                 else:
                     cur.append(tl[i])
                 i += 1
@@ -372,7 +414,7 @@ def expand(template_path):
                 f, hdr, name, opts, "\n".join(spec),
                 [(k, "\n".join(b)) for k, b in loops],
                 [(w, r, "\n".join(b)) for w, r, b in hints],
-                substs, ex.rewrites)
+                substs, ex.rewrites, [(k, r, ty, "\n".join(b)) for k, r, ty, b in closures])
             label = opts.get("label") or (_type_of_header(hdr) + "::" + name if hdr not in ("-", "") else name)
             first = len(ex.lines) + 2
             ex.lines.append(f"// ---- extracted verbatim: {f} :: {hdr} :: fn {name}")
